@@ -138,6 +138,22 @@ pub fn sd_jwt(cex: &Value) -> Result<String, String> {
       let kbn = sign_typed(&kb_claims(required, "aud1", t0, jwt.as_str(), &disclosures), &hkid, KeyBindingJwtClaims::KB_JWT_HEADER_TYP, &method_key(HOLDER, "#auth"));
       kexpect(&format!("token nonce {required:?}, required nonce \"n1\""), k(&sd(Some(kbn), disclosures.clone()), &kopts()), false);
     }
+    // each configured member is enforced on its own: audience without a nonce, nonce without an audience
+    {
+      let only_aud = |a: &str| KeyBindingJWTValidationOptions::new().aud(a).earliest_issuance_date(ts(t0)).latest_issuance_date(ts(t0));
+      let only_nonce = |n: &str| KeyBindingJWTValidationOptions::new().nonce(n).earliest_issuance_date(ts(t0)).latest_issuance_date(ts(t0));
+      kexpect("only an audience configured, token for that audience", k(&sd(Some(kb.clone()), disclosures.clone()), &only_aud("aud1")), true);
+      kexpect("only an audience configured, token for another audience", k(&sd(Some(kb.clone()), disclosures.clone()), &only_aud("aud2")), false);
+      kexpect("only a nonce configured, token with that nonce", k(&sd(Some(kb.clone()), disclosures.clone()), &only_nonce("n1")), true);
+      kexpect("only a nonce configured, token with another nonce", k(&sd(Some(kb.clone()), disclosures.clone()), &only_nonce("n2")), false);
+    }
+    // sd_hash covers the disclosures exactly as presented: a presentation that repeats, drops or reorders disclosures is another text
+    {
+      let reps = vec![d1.clone(), d1.clone()];
+      kexpect("KB-JWT over [d] presented with [d, d]", k(&sd(Some(kb.clone()), reps.clone()), &kopts()), false);
+      let kb_rep = sign_typed(&kb_claims("n1", "aud1", t0, jwt.as_str(), &reps), &hkid, KeyBindingJwtClaims::KB_JWT_HEADER_TYP, &method_key(HOLDER, "#auth"));
+      kexpect("KB-JWT over [d, d] presented with [d]", k(&sd(Some(kb_rep), disclosures.clone()), &kopts()), false);
+    }
     for aud in ["", "aud", "aud12", "AUD1"] {
       kexpect(&format!("token audience \"aud1\", required audience {aud:?}"), k(&sd(Some(kb.clone()), disclosures.clone()), &kopts().aud(aud)), false);
     }
